@@ -243,12 +243,12 @@ func (n *AbsfsNFS) UpdatePolicyOptions(newPolicy PolicyOptions) error {
 
 	// Update rate limiter while still holding the write lock (H2 fix)
 	if newPolicy.EnableRateLimiting {
-		n.rateLimiter = NewRateLimiter(*snapshot.RateLimitConfig)
+		n.rateLimiter.Store(NewRateLimiter(*snapshot.RateLimitConfig))
 	} else if !newPolicy.EnableRateLimiting {
-		n.rateLimiter = nil
+		n.rateLimiter.Store(nil)
 	}
 
-	vhook("up.limiter", "lim", n.rateLimiter)
+	vhook("up.limiter", "lim", n.rateLimiter.Load())
 
 	// Resume accepting requests
 	n.policyRWMu.Unlock()
